@@ -27,6 +27,9 @@ func c18Scenarios(tier string) []*natsmc.Scenario {
 		// a request that the client library refuses to publish (payload above the server's max_payload)
 		// after its reply subscription was made: one completion, nothing left behind
 		{Name: "publish-fails", Scripts: [][]string{{}, {"reply:A"}}, Big: []int{0}, Events: 1},
+		// an eager service answers (reply / no responders) while the request is still being published
+		{Name: "eager-reply", Scripts: [][]string{{"reply:A", "reply:B"}}, Eager: []int{0}},
+		{Name: "eager-503", Scripts: [][]string{{"503"}}, Eager: []int{0}},
 		{Name: "events", Scripts: [][]string{{"reply:A"}}, Events: 3, Unsub: true},
 		{Name: "disconnect", Scripts: [][]string{{"reply:A"}, {"pre:60000"}}, Events: 1, Drop: true},
 		{Name: "close", Scripts: [][]string{{"reply:A"}, {"reply:B"}}, Close: true},
